@@ -92,6 +92,7 @@ func caseGen() *rapid.Generator[Case] {
 			c.Script = withHdr.Draw(t, "script")
 		}
 		// mostly unset/true/false, rarely a non-boolean
+		c.SkipByCallback = rapid.IntRange(0, 5).Draw(t, "skip-by-callback") == 0
 		if rapid.IntRange(0, 2).Draw(t, "pre?") == 0 {
 			c.Pre = 1 + rapid.IntRange(0, len(c.Script.Ops)).Draw(t, "pre")
 		}
@@ -102,6 +103,9 @@ func caseGen() *rapid.Generator[Case] {
 					Val: rapid.SampledFrom([]int{0, 0, 1, 1, 2, 2, 1, 2, 0, 1, 2, 0, 1, 2, 1, 2, 0, 1, 2, 3}).Draw(t, "val")}
 			})
 			c.Props = rapid.SliceOfN(pg, 1, 8).Draw(t, "props")
+			if c.SkipByCallback {
+				c.Props = nil // the callback has the last word at render time: no direct history after it
+			}
 		}
 		return c
 	})
